@@ -88,17 +88,25 @@ def hook():
             return o_pcm(self, dt, stats=stats)
         rec = {'dt': dt, 'held': {a: d['quantity'] for a, d in
                                   self.broker.get_portfolio_as_dict(self.broker_portfolio_id).items()},
-               'orders': None, 'row': None, 'weights': None, 'target': None,
+               'orders': None, 'row': None, 'weights': None, 'target': None, 'alpha': None,
                'universe': list(self.universe.get_assets(dt))}
         tr.pcm.append(rec)
         n0 = len(stats['target_allocations']) if stats is not None else 0
         n_s = len(tr.sizer)
+        alpha = self.alpha_model
+        if alpha is not None:
+            def recording_alpha(t, _a=alpha, _r=rec):
+                w = _a(t)
+                _r['alpha'] = dict(w)
+                return w
+            self.alpha_model = recording_alpha
         try:
             out = o_pcm(self, dt, stats=stats)
             rec['orders'] = [(o.asset, o.quantity) for o in out]
             rec['order_meta'] = [(o.created_dt, o.direction) for o in out]
             return out
         finally:
+            self.alpha_model = alpha
             if stats is not None and len(stats['target_allocations']) > n0:
                 rec['row'] = dict(stats['target_allocations'][-1])
             if len(tr.sizer) > n_s:
@@ -494,8 +502,15 @@ def check_c09_session(cfg, world, tr, acc):
 
 def check_c09_record(r, acc):
     held, orders, target, row, weights = r['held'], r['orders'], r['target'], r['row'], r['weights']
-    alpha_keys = set(weights) if weights is not None else set()
+    alpha_w = r.get('alpha')
+    alpha_keys = set(alpha_w) if alpha_w is not None else (set(weights) if weights is not None else set())
     full = set(held) | set(r['universe']) | alpha_keys
+    if alpha_w is not None and weights is not None:
+        for a in full:
+            w = alpha_w.get(a, 0.0)
+            if a not in weights or weights[a] != w:
+                V('C09', 'weight-vector', 'asset %s: alpha model gave %r, the sizer received %r (universe %s, held %s)'
+                  % (a, alpha_w.get(a, '(silent: 0)'), weights.get(a, '(nothing)'), sorted(r['universe']), sorted(held)))
     if target is None:
         V('C09', 'no-target', 'portfolio construction at %s produced orders without sizing' % (r['dt'],))
     if set(target) != full and len(weights) > 0:
@@ -705,7 +720,7 @@ SYMS = ['AAA', 'BBB', 'CCC', 'DDD', 'EEE', 'FFF', 'GGG', 'HHH']
 
 
 def gen_cfg(rng, alpha_kinds=('fixed',), universe_kinds=('static',), max_days=250, full_data=True,
-            burn=True, rebalances=('daily', 'weekly', 'end_of_month', 'buy_and_hold'), n_assets=None):
+            burn=True, rebalances=('daily', 'weekly', 'end_of_month', 'buy_and_hold'), n_assets=None, nan_cells=None):
     n = n_assets or rng.randint(1, 5)
     syms = SYMS[:n]
     assets = ['EQ:' + s for s in syms]
@@ -740,6 +755,14 @@ def gen_cfg(rng, alpha_kinds=('fixed',), universe_kinds=('static',), max_days=25
     mk = {'seed': rng.randint(0, 2 ** 31), 'assets': syms, 'first': first.isoformat(), 'last': (d1 + dt.timedelta(days=3)).isoformat(),
           'missing_p': rng.choice([0.0, 0.0, 0.05, 0.15]), 'adjust': rng.random() < 0.5,
           'ratio': {s: rng.choice([1.0, 1.0, 0.5, 0.83]) for s in syms}}
+    if nan_cells and rng.random() < 0.6:
+        mk['nan_p'] = rng.choice([0.03, 0.1, 0.25])
+        if nan_cells == 'any':
+            mk['nan_leading'] = rng.random() < 0.6
+            if rng.random() < 0.5:
+                mk['first'] = d0.isoformat()          # data begin on the very first session day
+        else:
+            mk['nan_from_row'] = 3
     cfg['market'] = mk
     ukind = rng.choice(universe_kinds)
     if ukind == 'static':
